@@ -80,6 +80,13 @@ func (c *recCore) RouteSendPID(from, to gen.PID, o gen.MessageOptions, m any) er
 func (c *recCore) RouteCallPID(from, to gen.PID, o gen.MessageOptions, m any) error {
 	return c.deliver("call", from, to, m)
 }
+func (c *recCore) RouteSendResponse(from, to gen.PID, o gen.MessageOptions, m any) error {
+	c.active++
+	vsched.Point(vsched.OpUser, 8)
+	c.got = append(c.got, fmt.Sprintf("resp:%d->%d:ref%d:%v", from.ID, to.ID, o.Ref.ID[0], short(m)))
+	c.active--
+	return nil
+}
 func (c *recCore) RouteNodeDown(gen.Atom, error) {}
 func (c *recCore) MakeRef() gen.Ref {
 	return gen.Ref{Node: c.name, Creation: c.creation, ID: [3]uint64{1, 2, 3}}
@@ -213,5 +220,59 @@ func init() {
 	// small and large frames, two links, a slow link in each position
 	for slow := -1; slow < 2; slow++ {
 		kernelScenario("C13", kernelCfg{name: fmt.Sprintf("proto-kernel-mix-pool2-slow%d", slow+1), pool: 2, fromID: 1001, toID: 1002, msgs: []any{"s1", big, "s3"}, senders: 1, qb: 2, tb: 3, preempt: true, slowLink: slow})
+	}
+}
+
+// replies: three responses for three different callers/references travel back to back; each must be handed to the
+// node with its own addressee, reference and value (the routing data is read from a pooled frame buffer)
+func init() {
+	for _, prop := range []string{"C07", "C12"} {
+		harn.Register(harn.Scenario{Property: prop, Name: "proto-kernel-3responses", Run: func(ctx *harn.Ctx) *harn.Result {
+			return harn.Explore(ctx, harn.Sched{QuickBound: 2, ThoroughBound: 3, Preempt: true, Cache: true, Body: func(ex *vsched.Exec) string {
+				kernelErrors = nil
+				coreA := &recCore{name: "a@h", creation: 100}
+				coreB := &recCore{name: "b@h", creation: 200}
+				var ca, cb *connection
+				ex.Thread("setup", func() {
+					ca = mkConn(coreA, "b@h", 200, 1)
+					cb = mkConn(coreB, "a@h", 100, 1)
+					x, y := vconn.Pair("a0", "b0")
+					if err := ca.Join(x, "k", nil, nil); err != nil {
+						panic(err)
+					}
+					if err := cb.Join(y, "k", nil, nil); err != nil {
+						panic(err)
+					}
+				})
+				ex.RunSetup()
+				var errs []string
+				ex.Thread("S", func() {
+					for i := uint64(1); i <= 3; i++ {
+						from := gen.PID{Node: "a@h", ID: 1001, Creation: 100}
+						to := gen.PID{Node: "b@h", ID: 2000 + i, Creation: 200}
+						ref := gen.Ref{Node: "b@h", Creation: 200, ID: [3]uint64{70 + i, 0, 0}}
+						if err := ca.SendResponse(from, to, gen.MessageOptions{Ref: ref, KeepNetworkOrder: true}, fmt.Sprintf("v%d", i)); err != nil {
+							errs = append(errs, err.Error())
+						}
+					}
+				})
+				ex.Run()
+				want := map[string]bool{"resp:1001->2001:ref71:v1": true, "resp:1001->2002:ref72:v2": true, "resp:1001->2003:ref73:v3": true}
+				for _, g := range coreB.got {
+					if !want[g] {
+						ex.Fail("foreign-response", "three replies (v1 for caller 2001/ref 71, v2 for 2002/72, v3 for 2003/73) were sent; the receiving connection handed %q to the node (all: %v)", g, coreB.got)
+					}
+					delete(want, g)
+				}
+				if len(want) > 0 && len(errs) == 0 {
+					ex.Fail("response-lost", "not handed to the node: %v (got %v, log %v)", want, coreB.got, kernelErrors)
+				}
+				out := strings.Join(coreB.got, " ")
+				ex.Release()
+				ca.Terminate(nil)
+				cb.Terminate(nil)
+				return out
+			}})
+		}})
 	}
 }
